@@ -1,6 +1,6 @@
 ---- MODULE Sim_Values ----
-(* Simulation wrapper for Values: three candidate actions with randomly drawn parameters per
-   step (plus Commit, so a step always exists); `hist` is the behaviour, printed as JSON at
+(* Simulation wrapper for Values: two candidate actions with randomly drawn parameters per
+   step (plus Commit / Abort / a plain payload update, so a step always exists); `hist` is the behaviour, printed as JSON at
    SimDepth.  The last step is deterministic (it closes the running transaction).
    Random draws are bound by singleton quantifiers so that each is made exactly once. *)
 EXTENDS MC_Values
@@ -36,11 +36,13 @@ Cand ==
       [] act = 23 -> IF Full = {} THEN RefO(v) ELSE \E f \in One(Full) : Borrow(f)
       [] act = 24 -> IF VarILocs = {} THEN FALSE ELSE \E l \in One(VarILocs) : RefI(l)
 
+\* always possible inside a transaction: set the payload of a variable to a different value
+Touch == \E v \in One(OVars) : \E k \in One(Ks \ {heap[ov[v]].p}) : SetP(v, k)
 SimStep ==
   IF phase = "idle" THEN Begin
   ELSE IF nops >= MaxOps THEN Commit
-  ELSE \/ Cand \/ Cand \/ Cand
-       \/ \E c \in One(1..5) : IF c = 1 THEN Abort ELSE Commit
+  ELSE \/ Cand \/ Cand
+       \/ \E c \in One(1..9) : IF c = 1 THEN Abort ELSE IF c \in {2, 3} THEN Commit ELSE Touch
 
 Finish == IF phase = "tx" THEN Commit
           ELSE /\ last' = [op |-> "end"] /\ UNCHANGED <<heap, ov, iv, cur, com, ro, ri, phase, nops, ntx>>
